@@ -15,7 +15,9 @@ CTY = {"u8": "uint8_t", "i8": "int8_t", "u16": "uint16_t", "i16": "int16_t", "u3
 RTY = {"u8": "u8", "i8": "i8", "u16": "u16", "i16": "i16", "u32": "u32", "i32": "i32", "u64": "u64", "i64": "i64", "usize": "usize",
        "isize": "isize", "f32": "f32", "f64": "f64", "bool": "bool", "char": "u32"}
 UNS = {8: "u8", 16: "u16", 32: "u32", 64: "u64"}
-ENUM_VALS = [("A", 0), ("B", 5), ("C", -3), ("D", -2)]
+# E: explicit value equal to its POSITION right after an implicit previous+1 one (a binding that numbers by position or drops
+# "redundant" explicit values shows)
+ENUM_VALS = [("A", 0), ("B", 5), ("C", -3), ("D", -2), ("E", 4)]
 
 # contents of the Host object every borrowed return borrows from
 HOST_TEXT = "héllo €"
